@@ -118,6 +118,8 @@ type Faults struct {
 	Crash        bool
 	Tick         bool
 	CloseErr     bool
+	ReadStall    bool // after a partial delivery the next read with a deadline expires first
+	BrokerResend bool // the broker retransmits an unacknowledged PUBLISH / repeats PUBREL on the same connection
 	Allow        func(w *World, kind string) bool
 }
 
@@ -143,6 +145,7 @@ type Scenario struct {
 	Preset    bool
 	Init      func(w *World) // after client construction, before the first step
 	MaxConns  int
+	Burst     bool // the broker sends the whole inbound script right after CONNACK
 	Key       func(w *World) string // extra state for the pruning key
 	StepCheck func(w *World)        // invariant evaluated at every quiescent state
 }
@@ -291,6 +294,14 @@ func (w *World) threadAlts(th *thread) (alts []alt, hasDefault bool) {
 			return alts, true
 		}
 		due := !c.rdl.IsZero() && !now.Before(c.rdl)
+		if c.stallNext {
+			if !c.rdl.IsZero() {
+				// the pause chosen earlier outlasts the deadline
+				answer("timeout(stall)", Cost{}, 0, simTimeout{}, func() { c.stallNext = false })
+				return alts, true
+			}
+			c.stallNext = false // no deadline: the pause is invisible
+		}
 		if len(c.in) > 0 {
 			n := min(len(r.buf), len(c.in))
 			answer(fmt.Sprintf("%dB", n), Cost{}, n, nil, nil)
@@ -298,6 +309,9 @@ func (w *World) threadAlts(th *thread) (alts []alt, hasDefault bool) {
 				for _, k := range f.ReadCuts(n) {
 					if k > 0 && k < n {
 						answer(fmt.Sprintf("%dB of %d", k, n), F, k, nil, nil)
+						if f.ReadStall {
+							answer(fmt.Sprintf("%dB of %d then stall", k, n), F, k, nil, func() { c.stallNext = true })
+						}
 					}
 				}
 			}
@@ -611,6 +625,24 @@ func (w *World) menu() []alt {
 			}})
 		}
 	}
+	if c := w.liveConn(); c != nil && f.BrokerResend && c.bk.connected && c.bk.sess != nil && w.allow("resend") {
+		for _, m := range c.bk.sess.out {
+			m := m
+			if m.state == 1 {
+				menu = append(menu, alt{label: fmt.Sprintf("broker resends PUBLISH %#04x", m.id), cost: Cost{F: 1}, do: func() {
+					m.sends++
+					w.ev(Event{K: "bk-resend", C: c.id, N: int(m.id)})
+					w.bk.send(c, encPublish(m.qos, true, m.retain, m.id, m.topic, m.body))
+				}})
+			} else if m.state == 2 {
+				menu = append(menu, alt{label: fmt.Sprintf("broker repeats PUBREL %#04x", m.id), cost: Cost{F: 1}, do: func() {
+					w.ev(Event{K: "bk-resend", C: c.id, N: int(m.id), S: "pubrel"})
+					w.bk.send(c, encAck(tPUBREL, m.id))
+				}})
+			}
+			break // the oldest only
+		}
+	}
 	if f.Crash && w.gen < len(w.scn.Gens) && w.allow("crash") {
 		menu = append(menu, alt{label: "crash", cost: Cost{C: 1}, do: w.crash})
 	}
@@ -657,6 +689,9 @@ func (w *World) stateKey() uint64 {
 		}
 		if c.dead {
 			h = mix(h, "d")
+		}
+		if c.stallNext {
+			h = mix(h, "s")
 		}
 		if !c.rdl.IsZero() {
 			if now.Before(c.rdl) {
